@@ -6,7 +6,7 @@ From Coq Require Import List NArith Arith Bool Lia.
 From ApiFu Require Import Base.Sexp Vld.Ast Vld.Inspect Vld.InspectProofs Vld.TypeInfoModel Vld.TypeInfoPure Vld.Enumerate
      Vld.SpecEnum Vld.ValidatorModel Vld.ValidSpec Vld.Hyps Vld.ProofsCommon Vld.ProofsDirectives Vld.ProofsArguments Vld.ProofsFragDecl
      Vld.ProofsValues Vld.ProofsOrder Vld.ProofsOperations Vld.ProofsTotal Vld.ProofsFields Vld.ProofsMemo Vld.ValidatorProofs Vld.MemoTransfer
-     Vld.ProofsSecondary Vld.ProofsSecondaryRules Vld.ProofsSecondaryAll Vld.ProofsSpreadsSpec Vld.ProofsFieldsConverse Vld.ProofsVarsConverse.
+     Vld.ProofsSecondary Vld.ProofsSecondaryRules Vld.ProofsSecondaryAll Vld.ProofsSpreadsSpec Vld.ProofsFieldsConverse Vld.ProofsVarsConverse Vld.ProofsSpreads Vld.ProofsSpecReach Vld.ProofsSubscription.
 Import ListNotations.
 
 Lemma schema_input_flags S :
@@ -114,4 +114,48 @@ Proof.
   - intros [Hsec [Hsub Hmerge]]. unfold sections_but_two in Hsec.
     destruct Hsec as [V1 [V2 [V3 [V4 [V5 [V6 [V7 [V8 [V9 [V10 [V11 [V12 [W1 [W2 [W3 [W4 W5]]]]]]]]]]]]]]]].
     apply (valid_accepted_partial pi S F D Hpi Hs Hargs Himpl Hdef); assumption.
+Qed.
+
+(** every spread of the annotated document has a target when 5.5.2.1 holds *)
+Lemma spreads_defined_pti S F D :
+  valid_5_5_2_1 D = true ->
+  forall a sels p n np dirs e, In (SelSet a sels p) (all_subs (pti_doc (q_unwrap_obj repaired) S F D)) -> In (SSpread n np dirs e) sels ->
+                               frag_last (pti_doc (q_unwrap_obj repaired) S F D) n <> None.
+Proof.
+  intros H5521 a sels p n np dirs e Hss Hin.
+  destruct (all_subs_pti_occ (q_unwrap_obj repaired) S F D a sels p _ Hss Hin) as [d [s0 [Hd [Ho Heq]]]].
+  destruct s0 as [| n0 np0 dirs0 e0 |]; try discriminate Heq. cbn [pti_sel] in Heq. inversion Heq; subst n0 np0 e0.
+  assert (In n (spread_names D)) as Hn.
+  { unfold spread_names, all_sels. apply in_flat_map. exists (SSpread n np dirs0 e). split; [| left; reflexivity].
+    apply in_flat_map. exists d. split; [exact Hd |]. rewrite <- (proj2 (ssels_sels S F) (def_sub d) (model_def_scope S F d)).
+    apply (in_map snd) in Ho. exact Ho. }
+  unfold valid_5_5_2_1 in H5521. rewrite forallb_forall in H5521. specialize (H5521 n Hn). unfold fragment in H5521.
+  rewrite frag_last_pti. intros Hnone. destruct (frag_last D n) eqn:El; [discriminate |].
+  apply frag_last_none in El. apply (proj2 (frag_first_none D n)) in El. rewrite El in H5521. discriminate H5521.
+Qed.
+
+(** ** validate_verdict up to 5.3.2: with selection sets at distinct positions the subscription check
+    is 5.2.3.1 *)
+Theorem verdict_up_to_merge pi S F D :
+  order_ok pi ->
+  schema_ok S = true -> schema_args_ok S = true -> schema_impls_ok S = true -> schema_defaults_ok S = true ->
+  doc_set_positions_distinct D ->
+  (validate_model_memo repaired pi S F D = Done [] <->
+   sections_but_two S F D /\ valid_5_2_3_1 S F D = true /\
+   (forall e2, rule_fields_m repaired pi S F (pti_doc (q_unwrap_obj repaired) S F D) = Done e2 -> primary e2 = [])).
+Proof.
+  intros Hpi Hs Hargs Himpl Hdef Hpos. rewrite (verdict_up_to_two_rules pi S F D Hpi Hs Hargs Himpl Hdef). split.
+  - intros [Hsec [Hsub Hm]]. split; [exact Hsec |]. split; [| exact Hm].
+    destruct Hsec as [_ [_ [_ [_ [_ [_ [V7 _]]]]]]]. unfold valid_5_5_1 in V7. rewrite !andb_true_iff in V7. destruct V7 as [[[Hnd _] _] _].
+    apply (sub_ok_valid_5_2_3_1 S F D (proj1 (nodupb_NoDup _) Hnd) Hpos Hsub).
+  - intros [Hsec [H5231 Hm]]. split; [exact Hsec |]. split; [| exact Hm].
+    pose proof Hsec as Hsec'. destruct Hsec' as [_ [_ [_ [_ [_ [_ [V7 [V8 _]]]]]]]]. unfold valid_5_5_1 in V7. rewrite !andb_true_iff in V7. destruct V7 as [[[Hnd _] _] _].
+    apply (valid_5_2_3_1_sub_ok S F D (proj1 (nodupb_NoDup _) Hnd) Hpos (spreads_defined_pti S F D V8) H5231).
+Qed.
+
+Theorem memo_accepted_5_2_3_1 pi S F D :
+  order_ok pi -> schema_ok S = true -> schema_args_ok S = true -> schema_impls_ok S = true -> schema_defaults_ok S = true ->
+  doc_set_positions_distinct D -> validate_model_memo repaired pi S F D = Done [] -> valid_5_2_3_1 S F D = true.
+Proof.
+  intros Hpi Hs Hargs Himpl Hdef Hpos H. apply (verdict_up_to_merge pi S F D Hpi Hs Hargs Himpl Hdef Hpos) in H. tauto.
 Qed.
